@@ -126,6 +126,93 @@ def unit_hex(chunk):
     return u
 
 
+class EntryLoop:
+    """loop spec: record the locals at the loop head and stop (base case of a step refinement)"""
+
+    def run(self, I, node, frame):
+        I.ctx.ghost["entry"] = dict(frame.locals)
+        raise PathEnd("entry")
+        yield
+
+
+def unit_hex_entry():
+    """base case of the hex step refinement: whatever kind of source is handed in, the code in front of the loop reaches the
+    loop head without an exception or a yielded byte, in the start state (no nibble held), with an iterator over exactly the
+    source's items, none consumed.  list / tuple / iterator / generator sources carry opaque items (so the statement holds for
+    every content of that length, lengths 0-3); bytes and bytearray cannot carry opaque items and are evaluated for every text
+    of at most 3 characters over the alphabet of the bounded stand-in (that part is a finite sample of contents)."""
+    H = mod("tpmstream.io.hex.marshal")
+    u = UnitResult("C15/HEX/entry")
+    u.functions = ["tpmstream.io.hex.marshal:parse_hex_string"]
+
+    def ob(name, ok, detail):
+        u.obligations.append({"name": f"C15/HEX/entry/{name}", "kind": "step", "site": "hex/marshal.py:parse_hex_string", "status": "proved" if ok else "refuted",
+                              "backend": "evaluation", "seconds": 0, "model": None, "detail": detail})
+
+    def gen_of(items):
+        yield from items
+
+    alphabet = [0x30, 0x39, 0x61, 0x46, 0x20, 0x0A, 0x67, 0x2B, 0xA0]
+    texts = [bytes(t) for n in range(0, 4) for t in itertools.product(alphabet, repeat=n)]
+    opaque = [[object() for _ in range(n)] for n in range(0, 4)]
+    kinds = [("list", list, opaque), ("tuple", tuple, opaque), ("iterator", Counting, opaque), ("generator", gen_of, opaque),
+             ("bytes", bytes, texts), ("bytearray", bytearray, texts)]
+    n = 0
+    import ast, inspect, textwrap
+    if not any(isinstance(x, ast.While) for x in ast.walk(ast.parse(textwrap.dedent(inspect.getsource(H.parse_hex_string))))):
+        u.unsupported.append("C15/HEX/entry: the scanner has no while loop; the step rule does not apply (the bounded stand-in decides)")
+        return u
+    for kind, mk, contents in kinds:
+        bad = None
+        for items in contents:
+            n += 1
+            ctx = Ctx()
+            src = mk(items)
+            I = Interp(ctx, loop_specs={("parse_hex_string", 0): EntryLoop()})
+            outcome, ys = None, []
+            try:
+                g = run_sync(I.call(H.parse_hex_string, (src,), {}))
+                while True:
+                    ys.append(g.g.send(None))
+            except PathEnd:
+                outcome = "loop-head"
+            except StopIteration:
+                outcome = "returned before the loop"
+            except PyExc as e:
+                outcome = f"raised {type(e.exc).__name__} before the loop"
+            except Unsupported as e:
+                u.unsupported.append(f"C15/HEX/entry/{kind}: {e}")
+                return u
+            loc = ctx.ghost.get("entry", {})
+            if outcome != "loop-head" or ys:
+                # the code ended (or produced bytes) in front of the loop: that is judged against the whole-input spec where
+                # the content is concrete; with opaque items (or a scanner without that loop) the rule does not apply
+                if outcome == "loop-head" or isinstance(items, list):
+                    u.unsupported.append(f"C15/HEX/entry/{kind}: {outcome} with {len(ys)} bytes yielded in front of the loop; the step rule does not apply to this scanner")
+                    return u
+                err = None if outcome.startswith("returned") else outcome.split()[1]
+                if (ys, err) != hex_text_spec(items):
+                    bad = f"text {items!r}: {outcome} after {ys} , expected {hex_text_spec(items)}"
+            elif loc.get("high_nibble") != b"" or loc.get("low_nibble") != b"":
+                bad = f"loop entered with high={loc.get('high_nibble')!r} low={loc.get('low_nibble')!r}"
+            else:
+                buf = loc.get("buffer")
+                try:
+                    is_iter = iter(buf) is buf
+                    rest = list(buf)
+                except Exception as e:  # noqa
+                    is_iter, rest = False, None
+                want = list(items)
+                if not is_iter or rest is None or len(rest) != len(want) or any(a is not b and a != b for a, b in zip(rest, want)):
+                    bad = f"{len(items)} items ({items!r:.40}): the loop does not start with an iterator over exactly the source's items (got {rest!r:.60})"
+            if bad:
+                break
+        ob(kind, bad is None, bad or f"{len(contents)} contents")
+    u.stats = {"entries": n}
+    u.paths = n
+    return u
+
+
 def hex_text_spec(text):
     """whole-input spec of the hex front-end: whitespace anywhere is skipped, the rest are pairs of hex digits; bytes of the
     leading well-formed pairs, then 'ValueError' at the first malformed pair or a dangling digit"""
@@ -623,6 +710,7 @@ def run(tier, seed, only=None):
                        "auto-detection is claimed for texts whose first two characters form a hex pair", "pcap payload lengths 0..16 enumerated; the trimming logic does not depend on the length beyond 10"]
     rep.replayer = replayer
     jobs = [(unit_hex, (list(range(i, min(i + 16, 256))),)) for i in range(0, 256, 16)]
+    jobs.append((unit_hex_entry, ()))
     jobs += [(unit_hex_bounded, (6 if tier == "thorough" else 5, p, 8)) for p in range(8)]
     jobs += [(unit_swtpm, ())]
     jobs += [(unit_auto, (i, min(i + 15, 255))) for i in range(0, 256, 16)]
